@@ -1,3 +1,4 @@
+import GlonaxModel.Base.J1939
 /-! Shared helpers of the line-protocol driver (no imports outside core). -/
 namespace Glonax.Driver
 
@@ -47,5 +48,34 @@ def hexOf (bs : List Nat) : String := if bs.isEmpty then "-" else String.join (b
 def failing (cl : List (String × Bool)) : List String := (cl.filter (fun c => !c.2)).map (·.1)
 
 def joinSp (l : List String) : String := " ".intercalate l
+
+end Glonax.Driver
+
+namespace Glonax.Driver
+open Glonax
+
+def hexNat? (s : String) : Option Nat :=
+  if s.isEmpty then none else
+  s.toList.foldlM (fun acc c => do let d ← hexDigit? c; pure (acc * 16 + d)) 0
+
+def hex8 (n : Nat) : String :=
+  String.ofList ((List.range 8).reverse.map fun i => (hexNib (n / 16 ^ i % 16)).toUpper)
+
+/-- `0CB34A27#5a43ff00ff` -/
+def parseFrame? (s : String) : Option J1939.Frame :=
+  match s.splitOn "#" with
+  | [i, d] => do
+      let id ← hexNat? i
+      let data ← hexBytes? d
+      pure { id := id, data := data }
+  | _ => none
+
+def showFrame (f : J1939.Frame) : String := hex8 f.id ++ "#" ++ hexOf f.data
+
+def parseFrames? (s : String) : Option (List J1939.Frame) :=
+  if s = "-" then some [] else (s.splitOn ",").mapM parseFrame?
+
+def showFrames (fs : List J1939.Frame) : String :=
+  if fs.isEmpty then "-" else ",".intercalate (fs.map showFrame)
 
 end Glonax.Driver
